@@ -38,7 +38,7 @@ def load():
     IP.exp1 = models.uf_model('E1', scipy.special.exp1)
     IP.np = models.NpProxy(dict(zeros=models.zeros_model, array=models.array_model, isclose=c15.isclose_np,
                                 allclose=c15.allclose_np, all=models.all_model))
-    IP.math = slsym.MathProxy(dict(fsum=models.fsum_model, isclose=lambda *a, **k: True))
+    IP.math = slsym.MathProxy(dict(fsum=models.fsum_model, isclose=models.isclose_model))
     return IP, IM
 
 
@@ -307,6 +307,6 @@ def run(out):
     out.outside = ['the 1e-5 agreement with closed-form potentials', 'additivity under space splits (two different domain '
                    'meshes)', 'pointwise Gauss evaluation (InitialOperator.evaluate)', 'quad_int = 12 for the symbolic part']
     out.assumptions = ['E1 uninterpreted', 'np.isclose modelled by its documented formula if reached',
-                       'math.isclose sanity statements of linform (results unused) treated as no-ops']
+                       'math.isclose modelled (|a-b| <= max(rel*max(|a|,|b|), abs))']
     out.coverage['exhaustive'] = not out.inconclusive
     out.coverage['rule'] = 'G: every dyadic segment of the stated levels; K/U: every ordering / case of the symbolic times'
